@@ -107,7 +107,7 @@ m = dict(
                   serves_properties=[c["property_id"] for c in checks],
                   kind_free_text="Coq 8.16 model + theorems (coq/), extracted to OCaml (ocaml/), Go harness (harness/) and a comparison driver (check.py, props_rules.py)")],
     checks=checks,
-    notes="fix: commits in /repo (one per defect D1..D20 except the known finding D3, see known_findings.json and DESIGN.md sections 7 and 10.2) are unguarded repairs; no build-tag-guarded hook was needed. Known finding D3 (List/Vector[bool] hashed unpacked) is reported by the C01 check as KNOWN-FINDING.",
+    notes="fix: commits in /repo (one per defect D1..D21 except the known finding D3, see known_findings.json and DESIGN.md sections 7 and 10.2) are unguarded repairs; no build-tag-guarded hook was needed. Known finding D3 (List/Vector[bool] hashed unpacked) is reported by the C01 check as KNOWN-FINDING.",
     not_applicable=na)
 json.dump(m, open(os.path.join(ROOT, "MANIFEST.json"), "w"), indent=1)
 print("checks:", [c["property_id"] for c in checks])
